@@ -1,4 +1,5 @@
 import Eliot.Properties.C17
+import Eliot.Properties.C17Flat
 #print axioms PM.Testing.fromMessages_node
 #print axioms PM.Testing.containsFields_eq_issuperset
 #print axioms PM.C17.of_type_eq_parser_subtrees
@@ -17,3 +18,4 @@ import Eliot.Properties.C17
 #print axioms PM.Testing.children_perm
 #print axioms PM.Testing.sim_tree
 #print axioms PM.C17.of_type_any_order
+#print axioms PM.C17.parser_builds_same_flat
